@@ -78,4 +78,49 @@ theorem range_gap_accepted_before_997852f :
         [([true, true, false], .felt 8), ([true, true, true], .felt 9)] gapProof = .ok false := by
   decide
 
+/-! ## Before 616d4a4: walk on the node as given, no key range check (`Cfg.at997852f`) -/
+
+/-- What held of `trie2.VerifyProof` before 616d4a4 (and of every variant): sound on node sets that meet
+the side conditions of the variant; for `Cfg.at997852f` that is: NO EMBEDDED child node (what `Prove`
+returns and what a wire decoder builds). -/
+theorem proof_sound_trie2_partial_before_616d4a4 (A : HashAlg H) (hI : Ideal A) (cfg : Cfg) (n : Nat)
+    (hn : 0 < n) (r : H) (k : Path) (hk : k.length = n) (P : PSet H)
+    (hcache : cfg.trustCache = true → ∀ e ∈ P, e.2.cache = none)
+    (hval : cfg.earlyValue = true → ∀ e ∈ P, e.2.noValue)
+    (hemb : cfg.walkCollapsed = true ∨ ∀ e ∈ P, e.2.noEmb) (v : H)
+    (h : verify2 A cfg r k P = Res.ok v) :
+    ∀ t : Trie H, Trie.WF t n → Trie.NZ A t → t.hash A = r → t.get A k = v := by
+  intro t hwf hnz hr
+  subst hr
+  exact (trie2_sound hI cfg t n hwf hnz hn k hk P hcache hval hemb v h).symm
+
+/-- the honest proof of 110 (no cached flags) in which the root's right child — a hash node — is given
+as the EMBEDDED node it stands for, without cached hash; every node still hashes to its set key -/
+def forgedEmbedded : PSet HTerm :=
+  match Trie.prove freeAlg false false (some exTree) [true, true, false] with
+  | (h, .bin l r c) :: rest => (h, .bin l ⟨.embPlain, r.h⟩ c) :: rest
+  | p => p
+
+/-- Fixed by 616d4a4 (signature `trie2:embedded-child-without-cached-hash:accepted`): the hash check ran
+on the collapsed copy, the walk on the node as given; the embedded child was stepped over and the root
+node entered again one level too deep, until the shortened key led to a hash child: key 110 holds 8, the
+verifier returned, without error, the hash of the edge node above key 001.  With the walk on the
+collapsed copy (`Cfg.strict`, /repo today) the true value is returned. -/
+theorem embedded_child_forgery_before_616d4a4 :
+    (∀ e ∈ forgedEmbedded, e.1 = e.2.hash freeAlg) ∧
+    verify2 freeAlg Cfg.at997852f (exTree.hash freeAlg) [true, true, false] forgedEmbedded =
+      .ok ((Tree.edge [false, true] (.leaf (.felt 7))).hash freeAlg) ∧
+    exTree.get freeAlg [true, true, false] = .felt 8 ∧
+    verify2 freeAlg Cfg.strict (exTree.hash freeAlg) [true, true, false] forgedEmbedded = .ok (.felt 8) := by
+  decide
+
+/-- Fixed by 616d4a4 (signatures `*:key-plus-2^251:accepted`): without the range check the felt `k + 2^n`
+was verified exactly like the key `k` — a proof of `k ↦ v` was also accepted as a proof of
+`(k + 2^n) ↦ v`, a key no trie of height n holds. -/
+theorem felt_key_alias_before_616d4a4 (A : HashAlg H) (cfg : Cfg) (hck : cfg.checkKey = false) (n : Nat)
+    (r : H) (k : Nat) (P : PSet H) :
+    verifyLFelt A cfg n r (2 ^ n + k) P = verifyLFelt A cfg n r k P ∧
+    verify2Felt A cfg n r (2 ^ n + k) P = verify2Felt A cfg n r k P := by
+  simp [verifyLFelt, verify2Felt, hck, pathOfNat_add_pow n n (Nat.le_refl n) k]
+
 end Juno.C10.Regress
